@@ -8,11 +8,26 @@ ALL = ["C%02d" % i for i in range(1, 20)]
 
 # id -> (category, technique, level text, level note, design ref)
 CHECKS = {
+ "C02": ("model_checking",
+         "bounded-exhaustive enumeration of registration inputs plus explicit-state BFS over registration sequences on the real Client/Authenticator, independent relying-party verifier and store-delta oracle",
+         "Full product of the small input dimensions (challenges incl. empty and base64url-discriminating bytes, six accepted origin/RP pairs, seven algorithm preference lists, three client-data modes, counter, two stores), all 256 requested credential-id lengths and all registration sequences to the depth bound; every returned credential is verified by a relying-party implementation written in the harness (client data, attestation object, authenticator data layout, COSE key, SPKI, algorithm) and the store delta is compared (exactly one new record with the matching private scalar, effective RP ID, fresh id of the clamped length).",
+         "p256/sha2/ciborium::Value/serde_json::Value trusted; entries of unknown credential type are kept out of the alphabet; URL paths in the origin are not part of the alphabet.",
+         "DESIGN.md §2 C02"),
+ "C03": ("model_checking",
+         "explicit-state BFS over histories of register/authenticate actions on the real Client with history replay; independent ECDSA/clientData/authData verifier as oracle",
+         "All histories up to the depth bound over two RPs with credentials, a sub-domain origin of one of them and an RP without credentials, two users, six allow-list shapes, three userVerification requirements, three client-data modes and ten challenges are executed on the real client; each assertion's signature is verified under the key derived from the stored private scalar over authenticatorData || SHA-256(clientDataJSON) (or the caller's hash), and id/rawId/userHandle/rpIdHash/flags/length are checked; no eligible credential must give CredentialNotFound.",
+         "Contract store only (RefStore); signature encoding DER or raw accepted; depth 3 (quick) / 4 (thorough).",
+         "DESIGN.md §2 C03"),
  "C01": ("exploration",
          "bounded-exhaustive enumeration (full product of hosts x schemes x ports x RP-ID shapes x configurations, every PSL rule) on the real RpIdVerifier and Client, independent PSL matcher as oracle",
          "The (origin, RP ID) space is infinite; the check enumerates completely a finite domain built from every shortcut visible in the code (character suffixes vs. label suffixes, every rule of the shipped list incl. IDN forms, localhost shapes, IP literals, schemes, ports, both providers, web and Android) and judges every accepted pair with the implication stated in the property, using a textbook PSL matcher over the .dat file. Exhaustive over that domain, not a proof for all strings.",
          "url/idna crates trusted for URL parsing; registrability judged on the A-label form by the harness matcher; the custom provider is the harness's own.",
          "DESIGN.md §2 C01"),
+ "C11": ("model_checking",
+         "complete enumeration of the configuration product on the real Client/Authenticator against the WebAuthn residentKey table",
+         "The product capability(3) x residentKey(5 shapes) x requireResidentKey(2) x credProps(3) at client level and capability(3) x rk(2) at CTAP2 level is finite and enumerated completely; each configuration registers and then asserts with the new credential; the rk option seen by the store, the stored user handle, credProps.rk and the assertion's userHandle are compared with the specification table typed into the harness.",
+         "Harness store with configurable capability; nothing demanded for credProps false/absent.",
+         "DESIGN.md §2 C11"),
  "C08": ("model_checking",
          "explicit-state BFS over the real get_assertion/make_credential with history replay, deduplicated on the counter vector",
          "All histories of assertions (with and without extension requests) and registrations up to the depth bound from 49 start vectors covering 0, 1, 2^31-1, 2^31, 2^32-2, 2^32-1 and counter-less credentials are executed on the real authenticator; every transition is checked against the counter invariants (previous+1 = reported = stored, counter-less never rewritten, no wrap and no panic at the maximum).",
